@@ -99,9 +99,10 @@ class Outcome:
     def __init__(self):
         self.steps = []
         self.model = None
+        self.other = []
 
 
-def run_history(hist, zygote=None, flags=False, relevant=None, on_step=None):
+def run_history(hist, zygote=None, flags=False, relevant=None, on_step=None, keep_going=False):
     """Execute the history, verifying every step with the store model.  Raises Violation (only clauses in
     `relevant`, if given; other deviations end the evaluation quietly and are reported in the outcome)."""
     out = Outcome()
@@ -111,6 +112,10 @@ def run_history(hist, zygote=None, flags=False, relevant=None, on_step=None):
         hyp.silence_library_logging()
         RT.reset()
         RT.salt_seq = bool(hist.get('salt'))
+        if hist.get('records'):
+            from tcv import records
+            RT.hooks.append(records.hook)
+            RT.gen_messages = True
         loaded = build.load_program(hist['program'])
         ex = history.Executor(hist, root / 'data', root / 'cfg')
         (root / 'data').mkdir()
@@ -126,9 +131,11 @@ def run_history(hist, zygote=None, flags=False, relevant=None, on_step=None):
                         out.steps.append({'kind': 'skipped'})
                         continue
                     req = {'hist': hist, 'data': str(root / 'data'), 'cfg_root': str(root / 'cfg'), 'ops': op['ops'],
-                           'seq0': RT.seq, 'armed': {}, 'flags': flags}
+                           'seq0': RT.seq, 'armed': dict(RT.fail), 'flags': flags}
                     rep = zygote.run(req, str(root / f'session{step}.json'))
                     RT.seq = rep['seq']
+                    RT.fail.clear()
+                    RT.fail.update(rep.get('armed', {}))
                     proc = f'session{step}'
                     res = []
                     for sop, obs in zip(op['ops'], rep['obs']):
@@ -150,6 +157,12 @@ def run_history(hist, zygote=None, flags=False, relevant=None, on_step=None):
                     on_step(step, op, out.steps[-1], ex, sm)
             except Violation as v:
                 if relevant is not None and not any(v.clause == r or v.clause.startswith(r) for r in relevant):
+                    if keep_going:
+                        # a deviation that belongs to another property: note it and carry on (the clauses this
+                        # property asserts do not depend on the model state the deviation may have left behind)
+                        out.other.append(v.clause)
+                        out.steps.append({'kind': 'other-clause', 'clause': v.clause})
+                        continue
                     out.steps.append({'kind': 'stopped', 'clause': v.clause})
                     out.stopped = v.clause
                     return out
@@ -161,3 +174,25 @@ def run_history(hist, zygote=None, flags=False, relevant=None, on_step=None):
         if loaded is not None:
             loaded.unload()
         hyp.drop_scratch(root)
+
+
+def flat_steps(out):
+    flat = []
+    for s in out.steps:
+        flat += s['steps'] if s.get('kind') == 'session' else [s]
+    return flat
+
+
+def closing_ops(hist, slots=3, tasks=8, session=True):
+    """Value requests on every task of every live chain, then a fresh interpreter doing the same for every variant."""
+    ops = []
+    for sl in range(slots):
+        for m in range(2):
+            for t in range(tasks):
+                ops.append({'op': 'value', 'slot': sl, 'member': m, 'task': t})
+    if session:
+        for vi in range(len(hist['variants'])):
+            sops = [{'op': 'chain', 'variant': vi, 'pm': True}]
+            sops += [{'op': 'value', 'slot': 0, 'member': 0, 'task': t} for t in range(tasks)]
+            ops.append({'op': 'session', 'ops': sops})
+    return ops
